@@ -80,26 +80,26 @@ def _common_oracles(torch, o, p, which, c, get, xs, alpha_named, all_nas, tag):
 
 def _raise_oracle(torch, o, p, which, S, get, xs, coeffs, tag):
     """every coefficient whose increase raises the metric has a (positive) non-zero gradient.  "raises" is taken
-    as a slope: the cost grows strictly over the steps +1/16, +1/2, +1 -- a single jump of a rounded quantity
-    (ceil of a fractional channel count) is not a slope; the straight-through estimators differentiate a surrogate"""
+    as a slope: the cost grows strictly over the steps +1/256, +1/16, +1/2, +1 -- a single jump of a rounded quantity
+    (ceil of a fractional channel count) or the far side of a near-tie of the ODiMO soft-max reduction is not a slope; the straight-through estimators differentiate a surrogate"""
     def at(q, i, v):
         with torch.no_grad():
             q.view(-1)[i] = v
             p(*xs)
             return float(get())
-    tol = 1 + 2.0 ** -16
+    tol = 1 + 2.0 ** -17
     for n, q in coeffs:
         gl = S['grad'][n]
         for i in range(q.numel()):
             old = float(q.detach().view(-1)[i])
             cs = [S['value']]
-            for d in (1 / 16.0, 0.5, 1.0):
+            for d in (1 / 256.0, 1 / 16.0, 0.5, 1.0):
                 cs.append(at(q, i, old + d))
                 if not cs[-1] > cs[-2] * tol:
                     break
             at(q, i, old)
-            if len(cs) == 4 and cs[-1] > cs[-2] * tol and not (gl is not None and gl[i] > 0):
-                o['fails'].append(('no-gradient-for-coefficient-that-raises-cost:' + tag, {'param': n, 'index': i, 'cost_at_+0,+1/16,+1/2,+1': cs, 'grad': None if gl is None else gl[i]}))
+            if len(cs) == 5 and cs[-1] > cs[-2] * tol and not (gl is not None and gl[i] > 0):
+                o['fails'].append(('no-gradient-for-coefficient-that-raises-cost:' + tag, {'param': n, 'index': i, 'cost_at_+0,+1/256,+1/16,+1/2,+1': cs, 'grad': None if gl is None else gl[i]}))
     p(*xs)       # resample with the original coefficients
 
 
